@@ -13,8 +13,9 @@ class Contract(object):
     def __init__(self, qual, params=None, returns=None, requires=(), ensures=None, modifies=(),
                  raises=None, let=None, inline=(), loops=None, pure_keys=None, trusted=False,
                  props=(), note='', module=None, exc_ensures=None, fresh_result=False,
-                 noexc=True, events=None, local_modes=None, var_types=None, casts=(), no_return=False, chunks=1, ghost=None, yield_spec=None, cfile=None, split_returns=False, witness=(), index_ghosts=None, ghost_args=None, assume_ensures=None):
+                 noexc=True, events=None, local_modes=None, var_types=None, casts=(), no_return=False, chunks=1, ghost=None, yield_spec=None, cfile=None, split_returns=False, witness=(), index_ghosts=None, ghost_args=None, assume_ensures=None, budget=1):
         self.qual = qual
+        self.budget = budget   # factor on the solver time budget per obligation (only matters for obligations that are not discharged quickly)
         self.params = dict(params or {})
         self.returns = returns
         self.requires = list(requires)
